@@ -39,7 +39,7 @@ SIMS = [("PureFockSimulator", 6), ("PassiveSimulator", 5), ("FermionicPureFockSi
 
 def plan(tier):
     if tier == "thorough":
-        return {"families": 10000, "budget_s": 2400, "grace_s": 600}
+        return {"families": 100000, "budget_s": 2400, "grace_s": 600}
     return {"families": 640, "budget_s": 170, "grace_s": 240}
 
 
@@ -150,6 +150,18 @@ def mutations(subject, rng):
         # a full-width preparation after a mid-circuit measurement would also violate the mode-count rule
         if not any(outcomes.is_measurement(x["type"]) for x in prog[:pos]):
             mk("preparation-after-gate", inserted(pos, late_prep), position=pos)
+    # a fixed-arity gate inserted without modes where the number of still-active modes differs from its arity
+    # (the arity may well equal the width d of the simulator: the check must count *active* modes)
+    if first_gate < n:
+        pos = rng.randrange(first_gate, n)
+        act = _active_before(subject, pos)
+        one = {"PassiveSimulator": "Fourier", "GaussianSimulator": "Fourier", "PureFockSimulator": "Fourier", "FockSimulator": "Fourier", "FermionicPureFockSimulator": "Fourier", "FermionicGaussianSimulator": "Phaseshifter"}[sim]
+        two = "Beamsplitter5050" if sim != "FermionicGaussianSimulator" else "Beamsplitter"
+        cands = [(t, k) for t, k in ((one, 1), (two, 2)) if len(act) != k and len(act) >= 1]
+        if cands:
+            t, k = rng.pick(cands)
+            params = {"phi": 0.3} if t == "Phaseshifter" else ({"theta": 0.4, "phi": 0.1} if t == "Beamsplitter" else {})
+            mk("arity-q-all", inserted(pos, {"type": t, "modes": None, "params": params}), position=pos)
     # a sub-program registered on a register with fewer modes than its instructions address
     two = [i for i in gates if prog[i]["type"] in TWO_MODE and prog[i].get("modes") and not prog[i].get("when") and not any(isinstance(v, dict) and v.get("$") in ("expr", "fn") for v in prog[i]["params"].values())]
     if two:
